@@ -229,8 +229,8 @@ pub fn goldens() -> Vec<(&'static str, AppReq)> {
         ("http", AppReq::Http(HttpReq { verb: 0, target: Hex(b"index.html".to_vec()), major: "1".into(), minor: "1".into(), headers: vec![("Host".into(), Hex(b" example.org".to_vec()))], crlf: vec![true; 8], tail: Hex(vec![]) })),
         ("ssh", AppReq::Ssh(SshBanner { v199: false, vtail: String::new(), software: Hex(b"OpenSSH_8.2p1".to_vec()), comment: Some(Hex(b"Ubuntu".to_vec())), tail: Hex(vec![]) })),
         ("ghost", AppReq::Ghost(Hex(b"Gh0st\x16\x00\x00\x00\x01\x00\x00\x00x\x9cc\x00\x00\x00\x01\x00\x01".to_vec()))),
-        ("stun", AppReq::Stun(StunReq { mtype: 1, magic: true, id: [7; 16], attrs: vec![] })),
-        ("stun-change-port", AppReq::Stun(StunReq { mtype: 1, magic: false, id: [9; 16], attrs: vec![StunAttr { typ: 3, value: Hex(vec![0, 0, 0, 2]) }] })),
+        ("stun", AppReq::Stun(StunReq { mtype: 1, magic: true, id: [7; 16], attrs: vec![], trailer: Hex(vec![]) })),
+        ("stun-change-port", AppReq::Stun(StunReq { mtype: 1, magic: false, id: [9; 16], attrs: vec![StunAttr { typ: 3, value: Hex(vec![0, 0, 0, 2]) }], trailer: Hex(vec![]) })),
         ("dns", AppReq::Dns(dns)),
         ("rpc-getport-v2", AppReq::Rpc(rpc(2, 3))),
         ("rpc-dump-v3", AppReq::Rpc(rpc(3, 4))),
